@@ -133,6 +133,10 @@ class Bits:
         return b
 
     def _initialise(self, auto: Any, /, length: Optional[int], offset: Optional[int], **kwargs) -> None:
+        if offset is not None and offset < 0:
+            raise bitstring.CreationError(f"Can't create bitstring with a negative offset of {offset}.")
+        if length is not None and length < 0:
+            raise bitstring.CreationError(f"Can't create bitstring with a negative length of {length}.")
         if auto is not None:
             if isinstance(auto, numbers.Integral):
                 # Initialise with s zero bits.
@@ -529,6 +533,8 @@ class Bits:
         if isinstance(s, io.BytesIO):
             if length is None:
                 length = s.seek(0, 2) * 8 - offset
+                if length < 0:
+                    raise bitstring.CreationError("BytesIO object is not long enough for specified offset.")
             byteoffset, offset = divmod(offset, 8)
             bytelength = (length + byteoffset * 8 + offset + 7) // 8 - byteoffset
             if length + byteoffset * 8 + offset > s.seek(0, 2) * 8:
@@ -629,6 +635,8 @@ class Bits:
         if length is None:
             # Use to the end of the data
             length = len(data) * 8 - offset
+            if length < 0:
+                raise bitstring.CreationError(f"Not enough data present. The offset is {offset} bits, have {len(data) * 8}.")
         else:
             if length + offset > len(data) * 8:
                 raise bitstring.CreationError(f"Not enough data present. Need {length + offset} bits, have {len(data) * 8}.")
